@@ -1,4 +1,5 @@
 import XmppModel.Prelude.Xml
+import XmppModel.Model.Encoder
 /-!
 # Model of the hand-written stanza and error codecs — property C13
 
@@ -237,6 +238,61 @@ def decodeErr (parse : String → Option String) (ts : List Tok) : Option SErr :
       | none => ""
     let texts := ((cs.filter (fun c => decide (c.name = textName))).map fun c => (langOf c, c.text)).filter (·.2 ≠ "")
     byOpt.map fun b => ⟨b, typ, cond, texts⟩
+
+/-! ### a trip through bytes and `UnmarshalError` (round C)
+
+`wireGo`: what `encoding/xml`'s printer followed by its parser does to element names.  An element
+whose name has no namespace is printed without `xmlns`, so it is read back in the namespace of the
+nearest enclosing element (none at top level); an element with a namespace is printed with
+`xmlns="…"` and keeps it; an end element gets the name of its start element.  Attributes do not
+inherit.  `st` = namespaces of the open elements, innermost first. -/
+
+def topNs : List String → String
+  | [] => ""
+  | s :: _ => s
+
+def wireGo : List String → List Tok → List Tok
+  | _, [] => []
+  | st, .start n as :: ts =>
+    .start ⟨if n.space = "" then topNs st else n.space, n.loc⟩ as ::
+      wireGo ((if n.space = "" then topNs st else n.space) :: st) ts
+  | st, .stop n :: ts => .stop ⟨topNs st, n.loc⟩ :: wireGo st.tail ts
+  | st, t :: ts => t :: wireGo st ts
+
+/-- printing and re-parsing a token list; the printer rejects what is not balanced -/
+def wire (ts : List Tok) : Option (List Tok) := if balanced ts then some (wireGo [] ts) else none
+
+/-- the loop of `stanza.UnmarshalError` over the children of a stanza (`xmlstream.Iter`): the
+first child element accepted by `p` with its content; character data and other elements are
+skipped, the end of the stanza ends the search.  The code accepts by local name alone:
+`start.Name.Local == "error"`. -/
+def findErrorP (p : Name → Bool) : Nat → List Tok → Option (Name × List Attr × List Tok)
+  | _, [] => none
+  | 0, .start n as :: ts => if p n then some (n, as, Encoder.inner 0 ts) else findErrorP p 1 ts
+  | d + 1, .start _ _ :: ts => findErrorP p (d + 2) ts
+  | 0, .stop _ :: _ => none
+  | d + 1, .stop _ :: ts => findErrorP p d ts
+  | d, _ :: ts => findErrorP p d ts
+
+def isErrorName (n : Name) : Bool := n.loc == "error"
+
+inductive UErr
+  | missing            -- "stanza: expected error payload"
+  | bad                -- the payload was found and does not decode
+  | ok (e : SErr)
+  deriving DecidableEq, Repr
+
+def unmarshalErrorP (p : Name → Bool) (parse : String → Option String) (afterStart : List Tok) : UErr :=
+  match findErrorP p 0 afterStart with
+  | none => .missing
+  | some (n, as, c) =>
+    match decodeErr parse (.start n as :: c ++ [.stop n]) with
+    | some e => .ok e
+    | none => .bad
+
+/-- `stanza.UnmarshalError` on the tokens that follow the start element of a stanza -/
+def unmarshalError (parse : String → Option String) (afterStart : List Tok) : UErr :=
+  unmarshalErrorP isErrorName parse afterStart
 
 /-! ### stream errors -/
 
